@@ -841,7 +841,7 @@ func gen(c *ex.Ctx) {
 	fmt.Fprintf(&sb, "\n/-- KittyImage.Resize, the goroutine: every statement that touches k.uploaded or k.buf, in source order. -/\ndef kittyResizeBody : List KStmt := [%s]\n",
 		strings.Join(kittyStmts(c, goFuncBody(funcBody(f, "KittyImage", "Resize")), true), ", "))
 	fmt.Fprintf(&sb, "\n/-- KittyImage.Draw: the writeTo closure of the placement, statement by statement. -/\ndef kittyWriteBody : List KStmt := [%s]\n",
-		strings.Join(kittyStmts(c, closureBody(funcBody(f, "KittyImage", "Draw"), "writeFunc"), false), ", "))
+		strings.Join(kittyStmts(c, closureBody(funcBody(f, "KittyImage", "Draw"), placementField(c, funcBody(f, "KittyImage", "Draw"), "writeTo", "writeFunc")), false), ", "))
 
 	// ---- the placement id of KittyImage.Draw: `pid := uint(col)<<N | uint(row)` with `col, row := win.Origin()`
 	pidShift := "none"
@@ -900,6 +900,29 @@ func leanStrList(l []string) string {
 		q[i] = ex.LeanStr(s)
 	}
 	return "[" + strings.Join(q, ",\n  ") + "]"
+}
+
+// placementField: the name of the local that the `placement{…}` literal in l passes as the given field (so that renaming
+// the closure is silent); def when there is no such literal or the value is not an identifier.
+func placementField(c *ex.Ctx, l []ast.Stmt, field, def string) string {
+	name := def
+	for _, st := range l {
+		ast.Inspect(st, func(n ast.Node) bool {
+			cl, ok := n.(*ast.CompositeLit)
+			if !ok || src(c, cl.Type) != "placement" {
+				return true
+			}
+			for _, e := range cl.Elts {
+				if kv, ok := e.(*ast.KeyValueExpr); ok && src(c, kv.Key) == field {
+					if id, ok := kv.Value.(*ast.Ident); ok {
+						name = id.Name
+					}
+				}
+			}
+			return true
+		})
+	}
+	return name
 }
 
 // goFuncBody returns the statements of the first `go func() { … }()` in l.
